@@ -121,6 +121,22 @@ func runFuzz(e *emitter, target string, secs int, replay func(vals []string)) {
 	_ = os.RemoveAll(filepath.Join(dir, "testdata"))
 }
 
+// fuzzCorpus lists the inputs the fuzzer kept for a target (one per newly covered code path), from the Go build cache
+func fuzzCorpus(target string) [][]string {
+	out, err := exec.Command("go", "env", "GOCACHE").Output()
+	if err != nil {
+		return nil
+	}
+	files, _ := filepath.Glob(filepath.Join(strings.TrimSpace(string(out)), "fuzz", "verif", "harness", target, "*"))
+	var res [][]string
+	for _, p := range files {
+		if v := parseFuzzFile(p); v != nil {
+			res = append(res, v)
+		}
+	}
+	return res
+}
+
 func fuzzSecs(tier string) int {
 	if tier == "quick" {
 		return 0
@@ -210,6 +226,35 @@ func init() {
 			}
 		})
 	}
+	generators["FZ09c"] = func(e *emitter, tier string, seed uint64) {
+		if fuzzSecs(tier) == 0 {
+			return
+		}
+		// the decode target's corpus through the parsing ops that have a model (run after FZ09 in the same check)
+		for _, v := range fuzzCorpus("FuzzDecode") {
+			if len(v) < 2 {
+				continue
+			}
+			b := litBytes(v[1])
+			if len(b) > 4096 {
+				continue
+			}
+			h := hex.EncodeToString(b)
+			switch litUint(v[0]) % 6 {
+			case 0:
+				e.run("C01.parse", h)
+				e.run("C01.exact", h)
+			case 1:
+				e.run("C01.stream", h)
+				e.run("C01.txs", h)
+			case 2:
+				e.run("C09.input", "0", h)
+				e.run("C09.input", "1", h)
+				e.run("C09.output", h)
+			}
+			e.note("fuzz.corpus.decode")
+		}
+	}
 	generators["FZ14"] = func(e *emitter, tier string, seed uint64) {
 		secs := fuzzSecs(tier)
 		if secs == 0 {
@@ -225,5 +270,13 @@ func init() {
 			}
 			e.runIsolated("C14.inspect", h)
 		})
+		for _, v := range fuzzCorpus("FuzzInspect") {
+			b := litBytes(v[0])
+			if len(b) == 0 || len(b) > 2048 {
+				continue
+			}
+			e.run("C14.inspect", hex.EncodeToString(b))
+			e.note("fuzz.corpus.inspect")
+		}
 	}
 }
